@@ -22,12 +22,25 @@ else
   out="bin/$lc"
 fi
 mkdir -p bin evidence replays
-if ! go build "${mf[@]}" -o "$out" "./cmd/$lc" 2> "bin/$lc.build.err"; then
+# overlay seam: files cmd/<id>/overlay/<dir>__<file>.go are added to $VERIF_REPO/<dir>/<file>.go at build time only
+ov=()
+if [ -d "cmd/$lc/overlay" ]; then
+  oj="bin/$lc.overlay.json"
+  { echo '{"Replace":{'; first=1
+    for f in cmd/$lc/overlay/*.go; do
+      rel="$(basename "$f" | sed 's#__#/#g')"
+      [ $first = 1 ] || echo ','; first=0
+      printf '"%s/%s":"%s"' "$VERIF_REPO" "$rel" "$PWD/$f"
+    done; echo '}}'; } > "$oj"
+  ov=(-overlay "$PWD/$oj")
+fi
+if ! go build "${mf[@]}" "${ov[@]}" -o "$out" "./cmd/$lc" 2> "bin/$lc.build.err"; then
   cat "bin/$lc.build.err" >&2
   echo "ERROR property=$id harness does not build against $VERIF_REPO" >&2
   exit 2
 fi
 case "${1:-quick}" in
+  --build-only) exit 0 ;;
   quick|thorough) tier="$1"; shift; exec "$out" --tier "$tier" "$@" ;;
   *) exec "$out" "$@" ;;
 esac
